@@ -432,5 +432,13 @@ def r01_6(ctx):
         ctx.functions.add(q)
 
 
-RULES = [('R01.0', r01_0), ('R01.1', r01_1), ('R01.2', r01_2), ('R01.3', r01_3), ('R01.4', r01_4),
+def r01_frozen(ctx):
+    """Every valid message: also the ones that went through freeze_message / thaw_message.  They must come out equal attribute
+    for attribute and in the same representation (sysex data a tuple) - decode(encode(m)) == m compares vars() (shared with
+    C15 R15.1/R15.2)."""
+    from . import c15
+    ctx.borrow(c15.r15_freeze_thaw, 'R01.8')
+
+
+RULES = [('R01.8', r01_frozen), ('R01.0', r01_0), ('R01.1', r01_1), ('R01.2', r01_2), ('R01.3', r01_3), ('R01.4', r01_4),
          ('R01.5', r01_5), ('R01.6', r01_6)]
